@@ -29,7 +29,7 @@ def run_pydoctor(argv: List[str], workdir: str, *, hashseed: int = 0, tz: str = 
     cfgpath = os.path.join(rundir, 'cfg.json')
     respath = os.path.join(rundir, 'result.json')
     cfg = {'argv': argv, 'listing_seed': listing_seed, 'now': now, 'preserve_order': preserve_order,
-           'record_registration': record_registration, 'result': respath, 'repo': '/repo',
+           'record_registration': record_registration, 'result': respath, 'repo': os.environ.get('VERIF_REPO') or '/repo',
            'listing_root': os.path.abspath(workdir)}
     with open(cfgpath, 'w') as f:
         json.dump(cfg, f)
